@@ -51,6 +51,7 @@ async def history():
     ids = {k: [] for k in KINDS}
     trace = []
     bad = None
+    held, token_port = {}, {}
 
     async def uncached(kind, i):
         fn = getattr(type(db), "get_" + kind)
@@ -75,7 +76,13 @@ async def history():
         if kind == "filter":
             return await db.add_filter(name=f"f{len(ids[kind])}", type="shuffle", config={"c": jsonish()})
         if kind == "token":
-            return await db.add_token(tag="0." + str(len(ids[kind])), type=Token, value=jsonish(), port=rng.choice(ids["port"]) if ids["port"] else None)
+            # the caller keeps the value object (and edits it later); now and then a value that JSON stores differently (integer keys, tuples)
+            value = jsonish() if rng.random() < 0.7 else {1: "int key", "pair": (1, 2), "n": jsonish()}
+            port = rng.choice(ids["port"]) if ids["port"] else None
+            tid = await db.add_token(tag="0." + str(len(ids[kind])), type=Token, value=value, port=port)
+            held[tid] = value
+            token_port[tid] = port
+            return tid
 
     async def update(kind, i):
         if kind == "workflow":
@@ -122,6 +129,29 @@ async def history():
                         except TypeError:
                             pass  # sqlite3.Row objects are read-only: nothing to edit
                 trace.append(("list+edit", "workflow", w))
+            if held and rng.random() < 0.4:
+                tid = rng.choice(list(held))
+                if isinstance(held[tid], (dict, list)):
+                    try:
+                        mutate(held[tid])  # the object handed to add_token belongs to the caller
+                    except TypeError:
+                        pass
+                    trace.append(("caller edits the value it inserted", "token", tid))
+            with_port = [t for t, p in token_port.items() if p is not None]
+            if with_port and rng.random() < 0.5:
+                tid = rng.choice(with_port)
+                for _ in range(2):  # (the second read comes after the port row may have been cached by the reads below)
+                    row = await db.get_port_from_token(tid)
+                    want = await uncached("port", token_port[tid])
+                    if row != want:
+                        bad = {"failure": "get_port_from_token differs from the stored port row", "token": tid, "got": repr(row)[:300], "stored": repr(want)[:300], "trace": trace[-8:]}
+                        break
+                    mutate(row)
+                    await cached_read("token", tid)
+                    await cached_read("port", token_port[tid])
+                trace.append(("port of token read+edit", "token", tid))
+                if bad:
+                    break
             # every row, through the cache and without it
             for kind in KINDS:
                 for i in ids[kind]:
